@@ -1567,7 +1567,9 @@ class InBodyPhase(Phase):
 
     def endTagOther(self, token):
         for node in self.tree.openElements[::-1]:
-            if node.name == token["name"]:
+            # (only an HTML element can match; a MathML or SVG element of
+            # that name is treated like any other node on the stack)
+            if node.nameTuple == (namespaces["html"], token["name"]):
                 self.tree.generateImpliedEndTags(exclude=token["name"])
                 if self.tree.openElements[-1].name != token["name"]:
                     self.parser.parseError("unexpected-end-tag", {"name": token["name"]})
